@@ -477,7 +477,7 @@ def render(prog):
 _IDENT = re.compile(r"[A-Z][A-Z0-9_]*")
 
 
-def evolve(r, prog, pair_bias=0.0, remove_mentioned=0.0):
+def evolve(r, prog, pair_bias=0.0, remove_mentioned=0.0, retype=0.0):
     """A new *version* of a program: changed default / condition / range / prompt
     condition, added or removed option (DESIGN.md 2.7)."""
     p = copy.deepcopy(prog)
@@ -572,6 +572,16 @@ def evolve(r, prog, pair_bias=0.0, remove_mentioned=0.0):
                 configs.remove(c)
                 names.remove(c["name"])
                 log.append(("remove", c["name"]))
+    if retype and r.random() < retype:
+        # an option keeps its name and the text of its value but changes its type (int 5 -> string "5", bool y -> string "y")
+        txt = render(p)
+        cands = [c for c in configs if c["type"] in (INT, HEX, BOOL) and not c.get("menuconfig") and not c["selects"] and not c["implies"]
+                 and not c["sets"] and not sym_table(p)[c["name"]]["choice"] and len(re.findall(r"\b%s\b" % c["name"], txt)) == 1]
+        if cands:
+            c = r.choice(cands)
+            c["type"], c["ranges"], c["warning"] = STRING, [], None
+            c["defaults"] = [['"%s"' % v.strip('"'), cnd] for v, cnd in c["defaults"] if _IDENT.fullmatch(v) is None] or [['"y"', None]]
+            log.append(("retype", c["name"]))
     p["evolved"] = log
     return p
 
